@@ -283,7 +283,13 @@ func MapOrderNondet(on bool) {}
 func SchedNondet(on bool, preempt int) {}
 
 // Logger returns a logger that discards everything. primitive under gsx.
-func Logger() *slog.Logger { return slog.New(slog.NewTextHandler(io.Discard, nil)) }
+func Logger() *slog.Logger {
+	if os.Getenv("VERIF_LOG") != "" {
+		// triage aid for native replays: the code's own log lines on stderr
+		return slog.New(slog.NewTextHandler(os.Stderr, &slog.HandlerOptions{Level: slog.LevelDebug}))
+	}
+	return slog.New(slog.NewTextHandler(io.Discard, nil))
+}
 
 // PanicString renders a recovered panic value. primitive.
 func PanicString(r any) string {
